@@ -105,6 +105,8 @@ def required(tier):
         "renderer_ast_checks": 20_000 if q else 400_000,
         "wordform_cases": 2_000 if q else 20_000,
         "literal_cases": 500,
+        "superscript_cases": 3_000,
+        "superscript_exponents": 24,
         "uncertainty_cases": 300,
         "entrypoint_cases": 10_000 if q else 200_000,
         "parserhelper_cases": 2_000 if q else 40_000,
@@ -945,6 +947,47 @@ def wl_words(spec, rec, cmp, envs, rng):
                 rec.sample({"words": s, "tree": repr(t), "value": short(got[1])})
 
 
+# ---- unicode superscripts ----------------------------------------------------------------
+def wl_superscripts(spec, rec, cmp, envs, rng):
+    """Every superscript digit, multi-digit and negative exponents on every name, in context."""
+    from harness import c07_lang as L
+    exps = list(range(0, 10)) + [10, 12, 21, 30] + [-k for k in range(1, 10)] + [-12]
+    ctxs = [("{X}", lambda x: x), ("2 {X}", lambda x: ("*", ("n", "2"), x)),
+            ("{X} s", lambda x: ("*", x, ("u", "s"))), ("s {X}", lambda x: ("*", ("u", "s"), x)),
+            ("{X}/s", lambda x: ("/", x, ("u", "s"))), ("s/{X}", lambda x: ("/", ("u", "s"), x)),
+            ("({X})", lambda x: x), ("-{X}", lambda x: ("neg", x)), ("0.5{X}s", lambda x: ("*", ("*", ("n", "0.5"), x), ("u", "s"))),
+            ("{X} + {X}", lambda x: ("+", x, x)), ("2^{X}", lambda x: ("**", ("n", "2"), x))]
+    i = 0
+    for name in L.NAMES + ("meter", "kilometer"):
+        for e in exps:
+            sup = str(e).translate(L._SUP)
+            x = ("**", ("u", name), ("n", str(e)) if e >= 0 else ("neg", ("n", str(-e))))
+            for ctx, build in ctxs:
+                i += 1
+                if not mine(i, spec):
+                    continue
+                if ctx == "2^{X}" and (name != "percent" or abs(e) > 3):
+                    continue
+                s = ctx.format(X=name + sup)
+                t = build(x)
+                for nitname, env in envs.items():
+                    wants = env.wants(t)
+                    if wants[0][0] == "skip":
+                        continue
+                    got, events, _ = cmp.watch.run(env.ureg.parse_expression, s, limit=3.0)
+                    rec.count("superscript_cases")
+                    rec.observe("superscript_exponents", e)
+                    rec.case((nitname, "superscript", e, ctx))
+                    if events:
+                        cmp.audit_violation(events, s, env, "superscript")
+                    d = best_diff(got, wants, env.Q)
+                    if d not in (None, "rounding"):
+                        rec.violation("superscript-differs-from-tree",
+                                      {"string": s, "tree": repr(t), "parsed": short(got[1:]), "tree_value": short(wants[0][1:])},
+                                      kind=d, exponent_class=("negative" if e < 0 else "zero" if e == 0 else "positive")
+                                      + ("-multidigit" if abs(e) > 9 else ""), context=ctx, nit=nitname)
+
+
 # ---- numeric literals ------------------------------------------------------------------
 def wl_literals(spec, rec, cmp, envs, rng):
     ints = ["2", "3", "10", "007", "0", "1_000", "12345678901234567890123", "100"]
@@ -1011,6 +1054,11 @@ def wl_uncertainty(spec, rec, cmp, envs, rng):
         ("3 km + {P} km", lambda p, Q, u: 3 * u["km"] + p * u["km"], "mid"),
         ("({P}) m", lambda p, Q, u: p * u["m"], "mid)"),
         ("2 m * {P}", lambda p, Q, u: 2 * u["m"] * p, "end"),
+        # exponent applied to a parenthesised value: (N +/- S)eK  ==  (N +/- S) * 10**K
+        ("{P}e2 m", lambda p, Q, u: p * 100 * u["m"], "paren-only"),
+        ("{P}e+2 m", lambda p, Q, u: p * 100 * u["m"], "paren-only"),
+        ("{P}e-2 m", lambda p, Q, u: p * 0.01 * u["m"], "paren-only"),
+        ("{P}e-02 m", lambda p, Q, u: p * 0.01 * u["m"], "paren-only"),
     ]
     i = 0
     for n, sd in lits:
@@ -1018,6 +1066,8 @@ def wl_uncertainty(spec, rec, cmp, envs, rng):
             for ctx, build, where in contexts:
                 i += 1
                 if not mine(i, spec):
+                    continue
+                if where == "paren-only" and kind != "paren":
                     continue
                 P = sp.format(n=n, s=sd)
                 s = ctx.format(P=P)
@@ -1260,7 +1310,7 @@ def run_shard(spec, rec):
     watch.events, watch.calls = [], []
 
     cmp = Comparator(rec, watch, envs, rng)
-    for wl in (wl_literals, wl_uncertainty, wl_words, wl_directed, wl_full, wl_skeleton, wl_random, wl_truncations, wl_fuzz):
+    for wl in (wl_literals, wl_superscripts, wl_uncertainty, wl_words, wl_directed, wl_full, wl_skeleton, wl_random, wl_truncations, wl_fuzz):
         try:
             wl(spec, rec, cmp, envs, random.Random(rng.getrandbits(48)))
         except Exception:  # noqa: BLE001
